@@ -16,6 +16,7 @@ pub struct LockResult {
     pub unspecified: usize,
     pub not_modelled: usize,
     pub finished: bool,
+    pub cut_by_envelope: bool,
     pub instrs: Vec<String>,
 }
 
@@ -56,6 +57,11 @@ pub fn lockstep(
                 ))
             }
         };
+        if crate::envelope::outside(&real) {
+            // outside the resource envelope: the case is cut here (C15's subject)
+            res.cut_by_envelope = true;
+            break;
+        }
         let snap = StateSpec::snapshot(&real);
         if fin != fin_ref {
             return Err(Fail::new(
